@@ -31,6 +31,14 @@ Pipeline (spec/Duration.tla is the oracle, spec/DurationTrace.tla the trace moni
        conc : the same histories run by several goroutines at once; each history's records are
               compared with the sequential ones, histories that differ are judged by TLC again;
               once more with a -race build (a reported data race inside the helpers is a finding).
+       env  : the PROCESS ENVIRONMENT is a dimension of the cell space (Duration!Envs): the text of a
+              duration is a function of the duration and the style only (invariant EnvFree over
+              cell x style x env; witness LocaleMicro = TRUE must violate it).  Every run above is made
+              in the scrubbed environment "unset"; the sub-second cells, the boundary values, seeded
+              random values (fmt + parse back) and the boundary / seeded grammar strings (parse) are run
+              again in every other environment of ENVS (LANG=C, LC_CTYPE=POSIX, *.ISO-8859-1 through LANG
+              and through LC_ALL over a UTF-8 LANG, *.UTF-8, exotic TZ values); TLC judges the records of
+              each environment with the same, environment-blind operators.
      Strings outside the model's arithmetic (long digit runs, 64-bit overflow thresholds) are
      judged by the concrete comparison with time.ParseDuration only (day unit: against the same
      string with the day term rewritten to hours).
@@ -60,6 +68,27 @@ X_CANDS = [[ord("x")], [32], [ord("e")], [ord("D")], [0xC2], [0xFF], [0], [ord("
            [0xC2, 0xBC], [0xCE, 0xB5], [0xC2, 0xB6], [0xCE, 0xBB], [0xC3, 0xB5], [0xCF, 0xBC]]
 
 
+# process environments (Duration!Envs): name -> variables set; every other variable of ENV_VARS is REMOVED
+ENV_VARS = ["LC_ALL", "LC_CTYPE", "LC_NUMERIC", "LC_MESSAGES", "LC_TIME", "LANG", "LANGUAGE", "TZ"]
+ENVS = {
+    "unset": {},
+    "C": {"LANG": "C"},
+    "POSIX": {"LC_CTYPE": "POSIX"},
+    "latin1": {"LANG": "de_DE.ISO-8859-1", "LANGUAGE": "de"},
+    "lcall-latin1": {"LC_ALL": "en_US.ISO-8859-1", "LANG": "en_US.UTF-8"},
+    "utf8": {"LANG": "en_US.UTF-8", "LC_ALL": "en_US.UTF-8", "LC_NUMERIC": "de_DE.UTF-8"},
+    "tz-chatham": {"TZ": "Pacific/Chatham", "LANG": "C.UTF-8", "LC_TIME": "ja_JP.eucJP"},
+    "tz-posix": {"TZ": "<-0330>3:30", "LC_ALL": "POSIX"},
+}
+NO_UTF8 = ["C", "POSIX", "latin1", "lcall-latin1", "tz-posix"]      # Duration!NoUTF8 (only the witness run looks at it)
+
+
+def proc_env(name):
+    e = {k: v for k, v in os.environ.items() if k not in ENV_VARS}
+    e.update(ENVS[name])
+    return e
+
+
 def _cell(neg=False, d=0, h=0, m=0, s=0, ms=0, us=0, ns=0):
     return dict(neg=neg, d=d, h=h, m=m, s=s, ms=ms, us=us, ns=ns)
 
@@ -79,7 +108,7 @@ def config(quick):
                           us=[0, 1, 775], ns=[0, 1, 807, 808, 999]),
             rand_i64=3000, rand_parse=4000, big=3000, chunk=7000,
             hcells=HCELLS[:4], hlits=HLITS[:1], maxcalls=3, hist_mixed=40, hist_len=(25, 60), hist_hoard=(3, 72),
-            hist_pairs=150, goroutines=8, hist_chunk=16000)
+            hist_pairs=150, goroutines=8, hist_chunk=16000, env_rand=300, env_parse=400)
     return dict(
         alphabet=["+", "-", "0", "1", "5", "9", ".", "d", "h", "m", "s", "n", "u", "micro", "greek", "x"], maxlen=6,
         cellsets=dict(d=[0, 1, 9, 10, 99999, 100000, 106750, 106751], h=[0, 1, 9, 10, 23], m=[0, 1, 10, 47, 59],
@@ -87,7 +116,7 @@ def config(quick):
                       ns=[0, 1, 99, 807, 808, 999]),
         rand_i64=60000, rand_parse=60000, big=60000, chunk=40000,
         hcells=HCELLS, hlits=HLITS, maxcalls=4, hist_mixed=600, hist_len=(30, 120), hist_hoard=(6, 300),
-        hist_pairs=3000, goroutines=16, hist_chunk=60000)
+        hist_pairs=3000, goroutines=16, hist_chunk=60000, env_rand=6000, env_parse=6000)
 
 
 WITNESS_CELLS = dict(d=[0, 106751], h=[23], m=[47], s=[16], ms=[854], us=[775], ns=[807, 808])
@@ -96,12 +125,12 @@ WITNESS_CELLS = dict(d=[0, 106751], h=[23], m=[47], s=[16], ms=[854], us=[775], 
 def consts(c, cellsets=None):
     cs = cellsets or c["cellsets"]
     return dict(Alphabet=set(c["alphabet"]), CellSets={k: set(v) for k, v in cs.items()},
-                HCells=list(c["hcells"]), HLits=list(c["hlits"]))
+                HCells=list(c["hcells"]), HLits=list(c["hlits"]), Envs=set(c.get("envs", ENVS)), NoUTF8=set(NO_UTF8) & set(c.get("envs", ENVS)), FullEnvs={"unset"})
 
 
-def plain(c, buflen, machine, aliased=False):
+def plain(c, buflen, machine, aliased=False, locale_micro=False):
     return dict(BufLen=buflen, MaxLen=c["maxlen"], Machine='"%s"' % machine, MaxCalls=c["maxcalls"],
-                Aliased="TRUE" if aliased else "FALSE")
+                Aliased="TRUE" if aliased else "FALSE", LocaleMicro="TRUE" if locale_micro else "FALSE")
 
 
 _lock = threading.Lock()
@@ -158,11 +187,12 @@ def build_test(ctx, race=False):
     return binp
 
 
-def run_test(ctx, binp, mode, inp, name, careful=False, timeout=1500, env_extra=None):
-    """Returns (rows, died: None | dict(marker=.., rc, tail, complete: the log reached its end))."""
+def run_test(ctx, binp, mode, inp, name, careful=False, timeout=1500, env_extra=None, envname="unset"):
+    """Runs the injected test in process environment ENVS[envname].
+    Returns (rows, died: None | dict(marker=.., rc, tail, complete: the log reached its end))."""
     out = os.path.join(ctx.scratch, name + ".out.ndjson")
     mark = os.path.join(ctx.scratch, name + ".mark")
-    env = dict(os.environ, C20_MODE=mode, C20_IN=inp, C20_OUT=out, C20_MARK=mark, C20_CAREFUL="1" if careful else "0")
+    env = dict(proc_env(envname), C20_MODE=mode, C20_IN=inp, C20_OUT=out, C20_MARK=mark, C20_CAREFUL="1" if careful else "0")
     env.update(env_extra or {})
     try:
         p = subprocess.run([binp, "-test.run", "^TestC20Verif$", "-test.timeout", "0"], cwd=ctx.scratch, env=env,
@@ -177,6 +207,12 @@ def run_test(ctx, binp, mode, inp, name, careful=False, timeout=1500, env_extra=
                     rows.append(json.loads(line))
                 except ValueError:
                     break          # truncated last line of a process that died
+    for r in rows:
+        if r.get("op") in ("fmt", "parse"):
+            r["env"] = envname
+    if rows and rows[-1].get("op") == "end" and rows[-1].get("env") != ENVS[envname]:
+        raise Undecided("the injected test did not run in environment %s: it saw %s, the check asked for %s" % (
+            envname, rows[-1].get("env"), ENVS[envname]))
     if p is not None and p.returncode == 0 and rows and rows[-1].get("op") == "end":
         return rows[:-1], None
     marker = b""
@@ -193,7 +229,7 @@ def run_test(ctx, binp, mode, inp, name, careful=False, timeout=1500, env_extra=
 # ------------------------------------------------------------------ TLC runs
 def mc_fmt(ctx, c, buflen, cellsets=None, name="fmt-mc", workers=8, allow_fail=False):
     mc, cfg = gen_mc("MC", "Duration", consts(c, cellsets),
-                     ["SPECIFICATION Spec", "INVARIANTS InBuffer RoundTrip StdReads FmtShape", "CHECK_DEADLOCK FALSE"],
+                     ["SPECIFICATION Spec", "INVARIANTS InBuffer RoundTrip StdReads FmtShape EnvFree", "CHECK_DEADLOCK FALSE"],
                      plain=plain(c, buflen, "fmt"))
     kw = dict(files={"MC.tla": mc, "MC.cfg": cfg}, name=name, workers=workers, timeout=1500)
     return ctx.tlc("MC", "MC.cfg", allow_fail=allow_fail, **kw)
@@ -250,8 +286,8 @@ def parse_graph(path):
 
 def validate(ctx, c, rows, name, cellsets=None):
     """TLC trace validation of projected records. Returns (bad, ood_lines, cover)."""
-    keep_f = ("op", "cell", "style", "oor", "panic", "syms", "back")
-    keep_p = ("op", "syms", "lib", "std", "panic")
+    keep_f = ("op", "env", "cell", "style", "oor", "panic", "syms", "back")
+    keep_p = ("op", "env", "syms", "lib", "std", "panic")
     slim = [slim_hist(r) if r["op"] == "hist" else {k: r[k] for k in (keep_f if r["op"] == "fmt" else keep_p)} for r in rows]
     tp = os.path.join(ctx.scratch, name + ".trace.ndjson")
     write_ndjson(tp, slim)
@@ -282,14 +318,15 @@ def validate_chunks(ctx, c, rows, name, chunk, cellsets=None, parallel=5):
         rs = par(*[(lambda j=j: validate(ctx, c, parts[j], "%s-%d" % (name, j), cellsets)) for j in grp])
         for j, r in zip(grp, rs):
             results[j] = r
-    bad, ood, cells, hits = [], [], 0, 0
+    bad, ood, cells, hits, envs = [], [], 0, 0, set()
     for j, (b, o, cov) in enumerate(results):
         off = j * chunk
         bad += [dict(x, line=x["line"] + off) for x in b]
         ood += [x + off for x in o]
         cells = cov["cells"]
         hits += cov["cells"] - cov["missing"]
-    return bad, ood, dict(cells=cells, hit=hits)
+        envs |= set(cov["envs"])
+    return bad, ood, dict(cells=cells, hit=hits, envs=sorted(envs))
 
 
 # ------------------------------------------------------------------ inputs
@@ -455,17 +492,18 @@ def report_bad(ctx, rows, bad, inputs, source):
         if key.startswith("spec:"):
             raise Undecided("the specification disagrees with the harness/reference (%s) on %s; expected %s" % (
                 key, json.dumps(row, ensure_ascii=False)[:800], b["expected"][:800]))
+        envnote = "" if row.get("env", "unset") == "unset" else "in process environment %s %s: " % (row["env"], json.dumps(ENVS[row["env"]]))
         if row["op"] == "fmt":
-            what = "SmartDurationStringEx(%s ns, frac=%s): %s ; specification: %s" % (
+            what = envnote + "SmartDurationStringEx(%s ns, frac=%s): %s ; specification: %s" % (
                 row.get("i64"), row["style"] == "frac",
                 ("PANIC " + row.get("pmsg", "")) if row["panic"] else "returned %r which ParseDuration reads as %s" % (
                     row.get("text"), json.dumps(row["back"])), b["expected"][:600])
-            rp = dict(kind="fmt", input=inputs[(row["k"] - 1) // 2], style=row["style"], source=source)
+            rp = dict(kind="fmt", input=inputs[(row["k"] - 1) // 2], style=row["style"], source=source, env=row.get("env", "unset"))
         else:
-            what = "ParseDuration(%r): %s, time.ParseDuration: %s ; specification: %s" % (
+            what = envnote + "ParseDuration(%r): %s, time.ParseDuration: %s ; specification: %s" % (
                 text_of(row["b"]), ("PANIC " + row.get("pmsg", "")) if row["panic"] else json.dumps(row["lib"]),
                 json.dumps(row["std"]), b["expected"][:600])
-            rp = dict(kind="parse", b=row["b"], source=source)
+            rp = dict(kind="parse", b=row["b"], source=source, env=row.get("env", "unset"))
         finding(ctx, key, what, rp)
 
 
@@ -932,6 +970,93 @@ def step_hist(ctx, c, binp, race_bin, tree, rng):
 
 
 
+# ------------------------------------------------------------------ the environment dimension
+ENV_WITNESS_CELLS = dict(d=[0], h=[0], m=[0], s=[0, 1], ms=[0], us=[0, 1, 775], ns=[0, 1, 808])
+
+
+def env_witness(ctx, c):
+    """The micro sign spelled by locale: the model must lose EnvFree and RoundTrip (non-vacuity of the env dimension)."""
+    def one(inv):
+        mc, cfg = gen_mc("MC", "Duration", consts(c, ENV_WITNESS_CELLS), ["SPECIFICATION Spec", "INVARIANTS " + inv, "CHECK_DEADLOCK FALSE"],
+                         plain=plain(c, LIB_BUF + 1, "fmt", locale_micro=True))
+        r = ctx.tlc("MC", "MC.cfg", files={"MC.tla": mc, "MC.cfg": cfg}, name="env-witness-" + inv, workers=1, timeout=600,
+                    allow_fail=True, heap="2g")
+        if r.invariant_violated != [inv]:
+            raise Undecided("witness run (LocaleMicro) did not violate exactly %s: %s\n%s" % (inv, r.invariant_violated, r.out[-2000:]))
+    par(lambda: one("EnvFree"), lambda: one("RoundTrip"))
+    # ... and without the switch the same small space is clean in every environment
+    mc_fmt(ctx, c, LIB_BUF + 1, cellsets=ENV_WITNESS_CELLS, name="env-ideal", workers=1)
+    ctx.extra["witness_locale_micro"] = ("EnvFree and RoundTrip violated (micro sign spelled 'u' in the non-UTF-8 environments %s while two "
+                                         "bytes stay reserved below a second)" % sorted(set(NO_UTF8) & set(c.get("envs", ENVS))))
+
+
+def env_inputs(c, rng):
+    """Cells run in every environment: everything below one second of the cell space (all ms/us/ns boundary
+    combinations, both signs), the boundary values of every unit and of int64, seeded random values."""
+    cs = dict(c["cellsets"], d=[0], h=[0], m=[0], s=[0])
+    sub = [p for p in cell_product(cs) if in_range(p)]
+    nb = len(random_i64(rng, 0))                     # the fixed boundary values come first
+    return sub + [dict(cell=x) for x in HCELLS] + random_i64(rng, nb + c["env_rand"])
+
+
+def step_env(ctx, c, binp, rng):
+    names = [n for n in c.get("envs", ENVS) if n != "unset"]
+    inputs = env_inputs(c, rng)
+    ip = os.path.join(ctx.scratch, "env.fmt.in.ndjson")
+    write_ndjson(ip, inputs)
+    strs = random_parse_strings(rng, len(BOUNDARY_STRINGS) + c["env_parse"])
+    pin = [dict(b=sym_bytes(s_, rng)) for s_ in strs]
+    pp = os.path.join(ctx.scratch, "env.parse.in.ndjson")
+    write_ndjson(pp, pin)
+
+    def one(n):
+        return run_test(ctx, binp, "fmt", ip, "envfmt-" + n, envname=n), run_test(ctx, binp, "parse", pp, "envparse-" + n, envname=n)
+    res = par(*[(lambda n=n: one(n)) for n in ["unset"] + names])
+    frows, prows = [], []
+    texts = {}
+    for n, ((fr, fdead), (pr, pdead)) in zip(["unset"] + names, res):
+        for rows_, dead, ins, kind, stride in ((fr, fdead, inputs, "fmt", 2), (pr, pdead, pin, "parse", 1)):
+            if dead:
+                k = int.from_bytes(dead["marker"][:8], "little") if len(dead["marker"]) >= 8 else 0
+                if not k:
+                    raise Undecided("%s executor died outside a cell in environment %s: %s" % (kind, n, dead["tail"]))
+                inp = ins[(k - 1) // stride]
+                died(ctx, "in process environment %s %s: %s(%s)" % (n, json.dumps(ENVS[n]), kind, json.dumps(inp)[:300]), dead,
+                     dict(kind=kind, env=n, **(dict(input=inp, style=["compact", "frac"][(k - 1) % 2]) if kind == "fmt" else dict(b=inp["b"]))),
+                     kind + ":crash")
+                return
+            if len(rows_) != stride * len(ins):
+                raise Undecided("%s executor returned %d records for %d inputs in environment %s" % (kind, len(rows_), len(ins), n))
+        for r in fr:
+            texts.setdefault((r["i64"], r["style"]), set()).add(r.get("text"))
+        if n != "unset":          # (the environment "unset" is what every other step runs in; here it is the reference)
+            frows += fr
+            prows += pr
+    bad, _, cov = validate_chunks(ctx, c, frows, "env-fmt", c["chunk"], cellsets=WITNESS_CELLS)
+    if set(cov["envs"]) != set(names):
+        raise Undecided("environments not covered by the replay: %s of %s" % (cov["envs"], names))
+    report_bad(ctx, frows, bad, inputs, "env")
+    badp, ood, _ = validate_chunks(ctx, c, prows, "env-parse", c["chunk"], cellsets=WITNESS_CELLS)
+    report_bad(ctx, prows, badp, pin, "env")
+    for ln in ood:                # outside the model's arithmetic: the concrete comparison decides, as in step_parse
+        r = prows[ln - 1]
+        if "d" not in r["syms"] and (r["panic"] or r["lib"] != r["std"]):
+            finding(ctx, parse_key("panic" if r["panic"] else "value", False) + ":big",
+                    "in process environment %s: ParseDuration(%r) = %s but time.ParseDuration = %s" % (
+                        r["env"], text_of(r["b"]), json.dumps(r["lib"]), json.dumps(r["std"])),
+                    dict(kind="concrete", item=["std", r["b"]], env=r["env"]))
+    live = [r for r in frows if not r["oor"]]
+    differ = sorted(k for k, v in texts.items() if len(v) > 1)
+    bump(ctx, traces=len(live) + len(prows), evaluations=2 * len(live) + len(prows),
+         env_names={n: ENVS[n] for n in ["unset"] + names}, env_fmt_cells_per_environment=len(inputs) * 2,
+         env_sub_second_records=sum(1 for r in live if all(r["cell"][k] == 0 for k in "dhms")),
+         env_parse_strings_per_environment=len(pin), env_fmt_records=len(live), env_parse_records=len(prows),
+         env_texts_differing_between_environments=len(differ))
+    if differ:
+        # not forbidden by the statement as long as every text reads back (judged above); shown in the evidence
+        ctx.sample(dict(text_depends_on_environment=[dict(ns=k[0], style=k[1], texts=sorted(map(str, texts[k]))) for k in differ[:4]]))
+
+
 def witness(ctx, c):
     """With the library's array size the model must overrun - and only in the class the known finding names."""
     r = mc_fmt(ctx, c, LIB_BUF, cellsets=WITNESS_CELLS, name="fmt-witness", workers=2, allow_fail=True)
@@ -945,32 +1070,39 @@ def run(ctx, replay):
     if replay:
         return do_replay(ctx, c, replay)
     rng = random.Random(ctx.seed * 104729 + 20)
-    (binp, race_bin), rf, _, (rp, graph), (rh, tree), _ = par(
+    (binp, race_bin), rf, _, (rp, graph), (rh, tree), _, _ = par(
         lambda: (build_test(ctx), build_test(ctx, race=True)),
         lambda: mc_fmt(ctx, c, LIB_BUF + 1, workers=6),
         lambda: witness(ctx, c),
         lambda: mc_parse(ctx, c, workers=6),
         lambda: mc_hist(ctx, c),
-        lambda: hist_witness(ctx, c))
+        lambda: hist_witness(ctx, c),
+        lambda: env_witness(ctx, c))
     for r in (rf, rp, rh):        # exhaustive runs whose invariants held on the model
         ctx.states += r.distinct
         ctx.transitions += r.generated
-    r1, r2, r3 = [random.Random(rng.random()) for _ in range(3)]      # drawn here: the steps run concurrently
+    r1, r2, r3, r4 = [random.Random(rng.random()) for _ in range(4)]      # drawn here: the steps run concurrently
     par(lambda: step_walk(ctx, c, binp, graph),
         lambda: step_fmt(ctx, c, binp, r1),
         lambda: step_parse(ctx, c, binp, r2),
-        lambda: step_hist(ctx, c, binp, race_bin, tree, r3))
+        lambda: step_hist(ctx, c, binp, race_bin, tree, r3),
+        lambda: step_env(ctx, c, binp, r4))
     ctx.assumptions += [
         "float64 rounding of fractions and the 64-bit overflow thresholds are outside TLC's arithmetic: inside the "
         "model's domain (<=9 integer digits, <=9 fraction digits) the exact floor is used and every record is also "
         "checked against time.ParseDuration; outside it only the concrete comparison with time.ParseDuration decides",
         "bytes other than the duration alphabet are one class 'x', concretised per occurrence from a fixed list",
         "the scratch array size %d of dur.go is a constant of the check (witness run)" % LIB_BUF,
+        "process environment: every run is made with the variables %s removed except the ones the named environment sets "
+        "(the injected test reports what it saw and the check compares); walk / fmt / parse / hist steps run in 'unset', the "
+        "env step repeats the sub-second cells, boundary values, seeded values and strings in every other environment; "
+        "a text that differs between environments but reads back is not a violation (counted in the evidence)" % ", ".join(ENV_VARS),
         "histories: the caller's view of a retained text is taken right after every call of the same goroutine; "
         "concurrent runs are judged per goroutine (the model has no shared state), scheduling is the Go runtime's",
     ]
     return ctx.finish(rule="fmt: every cell of the specification's boundary product x {compact, frac} + seeded random int64 "
-                           "values; parse: every string <= MaxLen over the alphabet (paths of the TLC graph) + boundary and "
+                           "values; env: all cells below one second, boundary and seeded values x both styles and boundary + seeded "
+                           "strings again in every other process environment of ENVS (locale variables, TZ); parse: every string <= MaxLen over the alphabet (paths of the TLC graph) + boundary and "
                            "seeded random grammar strings; histories: every maximal history of the TLC "
                            "tree (<= MaxCalls calls over HCells x styles, parse/drop of retained texts) + seeded random long "
                            "histories, sequential and concurrent; non-trivial = distinct non-zero formatted values, distinct "
@@ -985,7 +1117,7 @@ def do_replay(ctx, c, path):
     if rp["kind"] == "fmt":
         ip = os.path.join(ctx.scratch, "r.in.ndjson")
         write_ndjson(ip, [rp["input"]])
-        rows, dead = run_test(ctx, binp, "fmt", ip, "r")
+        rows, dead = run_test(ctx, binp, "fmt", ip, "r", envname=rp.get("env", "unset"))
         if dead:
             died(ctx, "SmartDurationStringEx(%s)" % json.dumps(rp["input"]), dead, rp, "fmt:crash")
         else:
@@ -997,7 +1129,7 @@ def do_replay(ctx, c, path):
     elif rp["kind"] == "parse":
         ip = os.path.join(ctx.scratch, "r.in.ndjson")
         write_ndjson(ip, [dict(b=rp["b"])])
-        rows, dead = run_test(ctx, binp, "parse", ip, "r")
+        rows, dead = run_test(ctx, binp, "parse", ip, "r", envname=rp.get("env", "unset"))
         if dead:
             died(ctx, "ParseDuration(%r)" % text_of(rp["b"]), dead, rp, "parse:crash")
         else:
@@ -1008,7 +1140,7 @@ def do_replay(ctx, c, path):
         flat = [dict(b=it[1])] + ([dict(b=it[2])] if it[0] == "day" else [])
         ip = os.path.join(ctx.scratch, "r.in.ndjson")
         write_ndjson(ip, flat)
-        rows, dead = run_test(ctx, binp, "parse", ip, "r")
+        rows, dead = run_test(ctx, binp, "parse", ip, "r", envname=rp.get("env", "unset"))
         if dead:
             died(ctx, "ParseDuration(%r)" % text_of(it[1]), dead, rp, "parse:crash")
         else:
